@@ -49,6 +49,8 @@ impl SenderSession {
 
     pub fn run(&mut self, fdt: &mut Fdt, now: SystemTime) -> Option<Vec<u8>> {
         loop {
+            #[cfg(feature = "verif")]
+            crate::verif::step("SenderSession::run");
             if self.encoder.is_none() {
                 self.get_next(fdt, now);
             }
